@@ -261,7 +261,7 @@ def euler_rotation_matrix(
                     rot[..., 2, 0] = 0
                     rot[..., 2, 1] = 0
                     rot[..., 2, 2] = 1
-                matrix = rot if i == 0 else torch.bmm(matrix, rot)
+                matrix = rot if i == 0 else torch.matmul(matrix, rot)
     else:
         raise ValueError(
             f"Expected 'angles' to be scalar or tensor with last dimension size 3, got {N}"
